@@ -120,7 +120,7 @@ def run(tier, seed, which="C17"):
         for c in batches[bi]:
             lines += c["lines"]
         tp, rc, err = kv.run_kvdrive("\n".join(lines) + "\n", bwd, "t", timeout=300)
-        res = kv.run_tlc("CompareTrace", "CompareTrace.cfg", bwd, trace=tp, cont=True, timeout=900, heap="3g")
+        res = kv.run_tlc("CompareTrace", "CompareTrace.cfg", bwd, trace=tp, timeout=900, heap="3g")
         return bi, tp, rc, err, res
 
     def consume(results, batches_):
@@ -174,7 +174,7 @@ def run(tier, seed, which="C17"):
         for c in batches2[bi]:
             lines += c["lines"]
         tp, rc, err = kv.run_kvdrive("\n".join(lines) + "\n", bwd, "t", timeout=300)
-        res = kv.run_tlc("CompareTrace", "CompareTrace.cfg", bwd, trace=tp, cont=True, timeout=900, heap="3g")
+        res = kv.run_tlc("CompareTrace", "CompareTrace.cfg", bwd, trace=tp, timeout=900, heap="3g")
         return bi, tp, rc, err, res
     consume(kv.pmap(do2, range(len(batches2)), workers=12), batches2)
     V.sample(dict(case="tiny0", ref=["AC", "G-"], test="every alignment of the same two sequences", formats="fasta/clu/msf"))
